@@ -88,7 +88,7 @@ inductive Step (σ ρ : Type) where
 
 /-- what happens after one round of a loop body: go on (`next`), leave the loop (`k`), or
 return from the function -/
-def Step.cont {σ ρ} (r : Except Err (Step σ ρ)) (next k : σ → Except Err ρ) : Except Err ρ :=
+def Step.cont {ε σ ρ} (r : Except ε (Step σ ρ)) (next k : σ → Except ε ρ) : Except ε ρ :=
   match r with
   | .error e => .error e
   | .ok (.next st') => next st'
@@ -96,8 +96,8 @@ def Step.cont {σ ρ} (r : Except Err (Step σ ρ)) (next k : σ → Except Err 
   | .ok (.ret r) => .ok r
 
 /-- `for x in xs: body` followed by `k` -/
-def pyFor {α σ ρ} (xs : List α) (st : σ) (body : α → σ → Except Err (Step σ ρ))
-    (k : σ → Except Err ρ) : Except Err ρ :=
+def pyFor {ε α σ ρ} (xs : List α) (st : σ) (body : α → σ → Except ε (Step σ ρ))
+    (k : σ → Except ε ρ) : Except ε ρ :=
   match xs with
   | [] => k st
   | x :: rest => Step.cont (body x st) (fun st' => pyFor rest st' body k) k
@@ -114,28 +114,28 @@ def pyWhile {σ ρ} (fuel : Nat) (st : σ) (cond : σ → Except Err Bool)
     | .ok true => Step.cont (body st) (fun st' => pyWhile fuel st' cond body k) k
 
 section lemmas
-variable {α σ ρ : Type}
+variable {ε α σ ρ : Type}
 
-@[simp] theorem Step.cont_error (e : Err) (n k : σ → Except Err ρ) :
+@[simp] theorem Step.cont_error (e : ε) (n k : σ → Except ε ρ) :
     Step.cont (.error e) n k = .error e := rfl
-@[simp] theorem Step.cont_next (s : σ) (n k : σ → Except Err ρ) :
+@[simp] theorem Step.cont_next (s : σ) (n k : σ → Except ε ρ) :
     Step.cont (.ok (.next s)) n k = n s := rfl
-@[simp] theorem Step.cont_brk (s : σ) (n k : σ → Except Err ρ) :
+@[simp] theorem Step.cont_brk (s : σ) (n k : σ → Except ε ρ) :
     Step.cont (.ok (.brk s)) n k = k s := rfl
-@[simp] theorem Step.cont_ret (r : ρ) (n k : σ → Except Err ρ) :
+@[simp] theorem Step.cont_ret (r : ρ) (n k : σ → Except ε ρ) :
     Step.cont (.ok (.ret r)) n k = .ok r := rfl
-@[simp] theorem Step.cont_ite (c : Prop) [Decidable c] (a b : Except Err (Step σ ρ))
-    (n k : σ → Except Err ρ) :
+@[simp] theorem Step.cont_ite (c : Prop) [Decidable c] (a b : Except ε (Step σ ρ))
+    (n k : σ → Except ε ρ) :
     Step.cont (if c then a else b) n k = if c then Step.cont a n k else Step.cont b n k := by
   split <;> rfl
-@[simp] theorem pyFor_nil (st : σ) (body : α → σ → Except Err (Step σ ρ)) (k : σ → Except Err ρ) :
+@[simp] theorem pyFor_nil (st : σ) (body : α → σ → Except ε (Step σ ρ)) (k : σ → Except ε ρ) :
     pyFor [] st body k = k st := rfl
-@[simp] theorem pyFor_cons (x : α) (xs : List α) (st : σ) (body : α → σ → Except Err (Step σ ρ))
-    (k : σ → Except Err ρ) :
+@[simp] theorem pyFor_cons (x : α) (xs : List α) (st : σ) (body : α → σ → Except ε (Step σ ρ))
+    (k : σ → Except ε ρ) :
     pyFor (x :: xs) st body k = Step.cont (body x st) (fun st' => pyFor xs st' body k) k := rfl
 
 /-- a loop whose body only tests the item and returns: `any` -/
-theorem pyFor_ret_any (xs : List α) (p : α → Bool) (r : ρ) (k : Unit → Except Err ρ) :
+theorem pyFor_ret_any (xs : List α) (p : α → Bool) (r : ρ) (k : Unit → Except ε ρ) :
     pyFor xs () (fun x st => if p x then .ok (.ret r) else .ok (.next st)) k
       = if xs.any p then .ok r else k () := by
   induction xs with
